@@ -1,5 +1,6 @@
 (* C08 — Concurrent use is race-free and linearizable (the locking protocol of log.go). *)
 From KV Require Import Base Model Conc ConcProofs AbsFacts.
+From KV Require ReaderGC ReaderGCProofs.
 
 (* the invariant of the transition system of Conc.v is preserved by every step of every thread: Publish cut at
    writerMu.Lock / rollover swap / index.append / Unlock; reads cut at RLock / reading the writing segment /
@@ -65,3 +66,42 @@ Theorem C08_offsets_unique :
   inc (cabs (segs s)) /\ forall m, In m (cabs (segs s)) -> moff m < nxt s.
 Proof. exact offsets_unique. Qed.
 Print Assumptions C08_offsets_unique.
+
+(* ---------- the lazy load / unload of a sealed segment's log file (ReaderGC.v: reader.getMessages, the deferred release
+   of the in-use count, reader.GC; cut at every lock operation on messagesMu, every look at r.messages, every update
+   of messagesInuse).  For ANY number of reading calls (Consume, Get, GetByKey, GetByTime, ConsumeByKey on the segment)
+   and GC calls, and EVERY interleaving of their steps: no call reads through a closed mapping, and GC never closes a
+   mapping that is counted as in use - so no call fails merely because a GC was in progress *)
+Theorem C08_reads_never_see_a_closed_mapping :
+  forall m ts sched,
+  forallb ReaderGCProofs.gentry ts = true -> ReaderGC.bad (ReaderGC.grun (ReaderGC.ginit m ts) sched) = false.
+Proof. exact ReaderGCProofs.reads_never_see_a_closed_mapping. Qed.
+Print Assumptions C08_reads_never_see_a_closed_mapping.
+
+(* at every moment, a call that is reading has the file loaded and is counted *)
+Theorem C08_reading_means_loaded :
+  forall m ts sched j,
+  forallb ReaderGCProofs.gentry ts = true ->
+  let s := ReaderGC.grun (ReaderGC.ginit m ts) sched in
+  nth_error (ReaderGC.thrs s) j = Some (ReaderGC.TR ReaderGC.RUsing) ->
+  ReaderGC.mapped s = true /\ (0 < ReaderGC.inuse s)%nat.
+Proof. exact ReaderGCProofs.reading_means_loaded. Qed.
+Print Assumptions C08_reading_means_loaded.
+
+(* the invariant behind both, preserved by every step of every thread *)
+Theorem C08_reader_gc_invariant :
+  forall s i s', ReaderGCProofs.ginv s -> ReaderGC.gstep s i = Some s' -> ReaderGCProofs.ginv s'.
+Proof. exact ReaderGCProofs.gstep_inv. Qed.
+Print Assumptions C08_reader_gc_invariant.
+
+(* non-vacuity: two readers and a GC on a loaded segment; the GC passes its test first, closes the file, one reader
+   then loads it again on the slow path and both read; and a schedule where the GC finds the file in use and leaves it *)
+Example C08_reader_gc_example :
+  let ts := [ReaderGC.TR ReaderGC.RStart; ReaderGC.TG ReaderGC.GStart; ReaderGC.TR ReaderGC.RStart] in
+  let s1 := ReaderGC.grun (ReaderGC.ginit true ts) [1; 1; 1; 1; 0; 0; 0; 0; 0; 0; 0; 0; 2; 2; 2; 2; 0; 2; 0; 2]%nat in
+  let s2 := ReaderGC.grun (ReaderGC.ginit true ts) [0; 0; 0; 0; 1; 1; 1; 0; 0]%nat in
+  (ReaderGC.thrs s1 = [ReaderGC.TR ReaderGC.RDone; ReaderGC.TG ReaderGC.GDone; ReaderGC.TR ReaderGC.RDone] /\
+   ReaderGC.mapped s1 = true /\ ReaderGC.inuse s1 = O /\ ReaderGC.bad s1 = false) /\
+  (ReaderGC.thrs s2 = [ReaderGC.TR ReaderGC.RDone; ReaderGC.TG ReaderGC.GDone; ReaderGC.TR ReaderGC.RStart] /\
+   ReaderGC.mapped s2 = true /\ ReaderGC.bad s2 = false).
+Proof. vm_compute. repeat split. Qed.
